@@ -1,8 +1,369 @@
 import PilotaModel.Base.Sexp
-/-  Line-protocol verbs of track Pb (stub: answers nothing yet). -/
+import PilotaModel.Proto.Wire
+import PilotaModel.Proto.Scalar
+import PilotaModel.Proto.Schema
+import PilotaModel.Proto.SpecExec
+import PilotaModel.Proto.Group
+/-  Line-protocol verbs of track Pb: the model's answer to each request of harness/pbshared. -/
 namespace Driver.Pb
-open Pilota
+open Pilota Pilota.Proto
 
-def answer (_items : List Sexp) : Option String := none
+def svSexp : SVal → String
+  | .int n => s!"(i {n})"
+  | .bool b => if b then "(b 1)" else "(b 0)"
+  | .f32 x => s!"(f32 {toHex (natToBE 4 x)})"
+  | .f64 x => s!"(f64 {toHex (natToBE 8 x)})"
+  | .bs b => s!"(bs {hexOrDash b})"
+
+def svOf : Sexp → Option SVal
+  | .list [.atom "i", x] => .int <$> x.asInt
+  | .list [.atom "b", x] => do let n ← x.asNat; pure (.bool (n != 0))
+  | .list [.atom "f32", x] => do let b ← x.asHex; pure (.f32 (beToNat b))
+  | .list [.atom "f64", x] => do let b ← x.asHex; pure (.f64 (beToNat b))
+  | .list [.atom "bs", x] => .bs <$> x.asHex
+  | _ => none
+
+def svs (vs : List SVal) : String := if vs.isEmpty then "-" else " ".intercalate (vs.map svSexp)
+
+/-! ### schemas and message values -/
+
+def ftyOf : Sexp → Option FTy
+  | .atom a => FTy.scalar <$> Codec.ofName a
+  | .list [.atom "msg", i] => FTy.msg <$> i.asNat
+  | _ => none
+
+def declOf : Sexp → Option FieldDecl
+  | .list [.atom "f", t, ty, .atom "req"] => do pure (.single (← t.asNat) (← ftyOf ty) false)
+  | .list [.atom "f", t, ty, .atom "opt"] => do pure (.single (← t.asNat) (← ftyOf ty) true)
+  | .list [.atom "r", t, ty] => do pure (.rep (← t.asNat) (← ftyOf ty))
+  | .list [.atom "m", t, k, ty] => do pure (.map (← t.asNat) (← k.asAtom >>= Codec.ofName) (← ftyOf ty))
+  | .list (.atom "o" :: vs) => do
+    let l ← vs.mapM fun v => match v with
+      | .list [t, ty] => do pure ((← t.asNat), (← ftyOf ty))
+      | _ => none
+    pure (.oneof l)
+  | _ => none
+
+def schemaOf : Sexp → Option Schema
+  | .list (.atom "schema" :: ms) => ms.mapM fun m => match m with
+    | .list (.atom "msg" :: ds) => ds.mapM declOf
+    | _ => none
+  | _ => none
+
+mutual
+partial def eOf (s : Schema) : FTy → Sexp → Option EVal
+  | .scalar _, x => EVal.s <$> svOf x
+  | .msg i, x => EVal.msg <$> slotsOf s (decls s i) x
+partial def slotsOf (s : Schema) (ds : List FieldDecl) : Sexp → Option Slots
+  | .list (.atom "msg" :: xs) =>
+    if xs.length != ds.length then none
+    else Slots.ofList <$> (ds.zip xs).mapM fun (d, x) => slotOf s d x
+  | _ => none
+partial def slotOf (s : Schema) : FieldDecl → Sexp → Option Slot
+  | .single _ _ true, .atom "none" => some .none
+  | .oneof _, .atom "none" => some .none
+  | .single _ ty false, .list [.atom "req", x] => Slot.req <$> eOf s ty x
+  | .single _ ty true, .list [.atom "some", x] => Slot.some <$> eOf s ty x
+  | .rep _ ty, .list (.atom "rep" :: xs) => (Slot.rep ∘ EVals.ofList) <$> xs.mapM (eOf s ty)
+  | .map _ _ vty, .list (.atom "map" :: es) => do
+    let l ← es.mapM fun e => match e with
+      | .list [k, v] => do pure ((← svOf k), (← eOf s vty v))
+      | _ => none
+    pure (.map (Pairs.ofList l))
+  | .oneof vs, .list [.atom "one", t, x] => do
+    let t ← t.asNat
+    let ty ← lookupVariant vs t
+    pure (.one t (← eOf s ty x))
+  | _, _ => none
+end
+
+/-- order of `SV` in the harness (`derive(Ord)`): keys of one map have one constructor. -/
+def svLt : SVal → SVal → Bool
+  | .int a, .int b => a < b
+  | .bool a, .bool b => !a && b
+  | .bs a, .bs b => bytesLt a b
+  | .f32 a, .f32 b => a < b
+  | .f64 a, .f64 b => a < b
+  | _, _ => false
+where
+  bytesLt : Bytes → Bytes → Bool
+    | [], [] => false
+    | [], _ :: _ => true
+    | _ :: _, [] => false
+    | x :: xs, y :: ys => if x < y then true else if y < x then false else bytesLt xs ys
+
+def insertSorted (k : SVal) (v : EVal) : List (SVal × EVal) → List (SVal × EVal)
+  | [] => [(k, v)]
+  | (k', v') :: r => if svLt k k' then (k, v) :: (k', v') :: r else (k', v') :: insertSorted k v r
+
+def sortPairs (l : List (SVal × EVal)) : List (SVal × EVal) := l.foldl (fun acc (k, v) => insertSorted k v acc) []
+
+mutual
+partial def eSexp : EVal → String
+  | .s v => svSexp v
+  | .msg fs => slotsSexp fs
+partial def slotsSexp (fs : Slots) : String := "(msg" ++ String.join (fs.toList.map fun x => " " ++ slotSexp x) ++ ")"
+partial def slotSexp : Slot → String
+  | .req v => s!"(req {eSexp v})"
+  | .none => "none"
+  | .some v => s!"(some {eSexp v})"
+  | .rep xs => "(rep" ++ String.join (xs.toList.map fun x => " " ++ eSexp x) ++ ")"
+  | .map kvs => "(map" ++ String.join ((sortPairs kvs.toList).map fun (k, v) => s!" ({svSexp k} {eSexp v})") ++ ")"
+  | .one t v => s!"(one {t} {eSexp v})"
+end
+
+-- maps re-ordered by key at every level (what a `BTreeMap` iterates)
+mutual
+partial def sortE : EVal → EVal
+  | .s v => .s v
+  | .msg fs => .msg (sortSlots fs)
+partial def sortSlots (fs : Slots) : Slots := Slots.ofList (fs.toList.map sortSlot)
+partial def sortSlot : Slot → Slot
+  | .req v => .req (sortE v)
+  | .none => .none
+  | .some v => .some (sortE v)
+  | .rep xs => .rep (EVals.ofList (xs.toList.map sortE))
+  | .map kvs => .map (Pairs.ofList ((sortPairs kvs.toList).map fun (k, v) => (k, sortE v)))
+  | .one t v => .one t (sortE v)
+end
+
+mutual
+partial def multiE : EVal → Bool
+  | .s _ => false
+  | .msg fs => fs.toList.any multiSlot
+partial def multiSlot : Slot → Bool
+  | .req v | .some v | .one _ v => multiE v
+  | .none => false
+  | .rep xs => xs.toList.any multiE
+  | .map kvs => kvs.toList.length ≥ 2 || kvs.toList.any fun (_, v) => multiE v
+end
+
+/-- the well-known wrapper impls of prost/types.rs: one field, tag 1, of the given module. -/
+def wrapCodec : String → Option Codec
+  | "bool" => some .bool | "u32" => some .uint32 | "u64" => some .uint64 | "i32" => some .int32 | "i64" => some .int64
+  | "f32" => some .float | "f64" => some .double | "string" => some .string | "vec" => some .bytes | "bytes" => some .bytes
+  | _ => none
+
+def wrapSchema (c : Codec) : Schema := [[.single 1 (.scalar c) false]]
+
+def wrapVal : Slots → Option SVal
+  | .cons (.req (.s v)) .nil => some v
+  | _ => none
+
+/-! ### declared schemas (C06) -/
+
+def pftyOf : Sexp → Option Spec.PFTy
+  | .atom "enum" => some .enum
+  | .atom a => Spec.PFTy.scalar <$> PType.ofName a
+  | .list [.atom "msg", i] => Spec.PFTy.msg <$> i.asNat
+  | _ => none
+
+def pdeclOf : Sexp → Option Spec.PDecl
+  | .list [.atom "f", t, ty, .atom "req"] => do pure (.single (← t.asNat) (← pftyOf ty) false)
+  | .list [.atom "f", t, ty, .atom "opt"] => do pure (.single (← t.asNat) (← pftyOf ty) true)
+  | .list [.atom "r", t, ty] => do pure (.rep (← t.asNat) (← pftyOf ty))
+  | .list [.atom "m", t, k, ty] => do pure (.map (← t.asNat) (← k.asAtom >>= PType.ofName) (← pftyOf ty))
+  | .list (.atom "o" :: vs) => do
+    let l ← vs.mapM fun v => match v with
+      | .list [t, ty] => do pure ((← t.asNat), (← pftyOf ty))
+      | _ => none
+    pure (.oneof l)
+  | _ => none
+
+def pschemaOf : Sexp → Option Spec.PSchema
+  | .list (.atom "schema" :: ms) => ms.mapM fun m => match m with
+    | .list (.atom "msg" :: ds) => ds.mapM pdeclOf
+    | _ => none
+  | _ => none
+
+def flagOf : String → Option Bool
+  | "f0" => some false | "f1" => some true | _ => none
+
+/-- verbs over emitted types (`pbrun`): `pbeenc <type> …` is `pbenc hm …` for the model. -/
+def normalize (items : List Sexp) : List Sexp :=
+  match items with
+  | .atom "pbeenc" :: _ :: rest => .atom "pbenc" :: .atom "hm" :: rest
+  | .atom "pbecat" :: _ :: rest => .atom "pbcat" :: .atom "hm" :: rest
+  | .atom "pbedec" :: _ :: rest => .atom "pbdec" :: .atom "hm" :: rest
+  | .atom "pbemrg" :: _ :: rest => .atom "pbmrg" :: .atom "hm" :: rest
+  | .atom "pbedld" :: _ :: rest => .atom "pbdld" :: .atom "hm" :: rest
+  | .atom "pbespecchk" :: _ :: rest => .atom "pbspecchk" :: .atom "hm" :: rest
+  | _ => items
+
+def answer (items0 : List Sexp) : Option String := do
+  let items := normalize items0
+  let verb ← items.head? >>= Sexp.asAtom
+  match verb with
+  | "pbvarenc" =>
+    let n ← items[1]? >>= Sexp.asNat
+    pure s!"ok {hexOrDash (encodeVarint n)} len={encodedLenVarint n}"
+  | "pbvardec" =>
+    let bs ← items[1]? >>= Sexp.asHex
+    match decodeVarint bs with
+    | .ok (v, r) => pure s!"ok {v} rem={r.length}"
+    | o => pure o.cls
+  | "pbkeyenc" =>
+    let tag ← items[1]? >>= Sexp.asNat
+    let wt ← items[2]? >>= Sexp.asAtom >>= WireType.ofName
+    match encodeKey tag wt with
+    | .ok b => pure s!"ok {hexOrDash b} len={keyLen tag}"
+    | o => pure o.cls
+  | "pbkeydec" =>
+    let bs ← items[1]? >>= Sexp.asHex
+    match decodeKey bs with
+    | .ok ((t, w), r) => pure s!"ok {t} {w.name} rem={r.length}"
+    | o => pure o.cls
+  | "pbskip" =>
+    let wt ← items[1]? >>= Sexp.asAtom >>= WireType.ofName
+    let tag ← items[2]? >>= Sexp.asNat
+    let bs ← items[3]? >>= Sexp.asHex
+    match skipField recursionLimit wt tag bs with
+    | .ok r => pure s!"ok rem={r.length}"
+    | o => pure o.cls
+  | "pbsc" =>
+    let c ← items[1]? >>= Sexp.asAtom >>= Codec.ofName
+    let tag ← items[2]? >>= Sexp.asNat
+    let v ← items[3]? >>= svOf
+    let b := c.encode tag v
+    let back := match decodeKey b with
+      | .ok ((_, w), r) => c.merge w r
+      | .err k => .err k | .panic m => .panic m | .fuel => .fuel
+    match back with
+    | .ok (v2, r) => pure s!"ok {hexOrDash b} len={c.encodedLen tag v} | {svSexp v2} rem={r.length}"
+    | o => pure s!"ok {hexOrDash b} len={c.encodedLen tag v} | {o.cls}"
+  | "pbscm" =>
+    let c ← items[1]? >>= Sexp.asAtom >>= Codec.ofName
+    let wt ← items[2]? >>= Sexp.asAtom >>= WireType.ofName
+    let bs ← items[3]? >>= Sexp.asHex
+    match c.merge wt bs with
+    | .ok (v, r) => pure s!"ok {svSexp v} rem={r.length}"
+    | o => pure o.cls
+  | "pbrep" | "pbpk" =>
+    let c ← items[1]? >>= Sexp.asAtom >>= Codec.ofName
+    let tag ← items[2]? >>= Sexp.asNat
+    let vs ← (items.drop 3).mapM svOf
+    let (b, l) := if verb == "pbrep" then (c.encodeRepeated tag vs, c.encodedLenRepeated tag vs)
+      else (c.encodePacked tag vs, c.encodedLenPacked tag vs)
+    match c.mergeAll (b.length + 1) [] b with
+    | .ok acc => pure s!"ok {hexOrDash b} len={l} | {svs acc} rem=0"
+    | o => pure s!"ok {hexOrDash b} len={l} | {o.cls}"
+  | "pbrepm" =>
+    let c ← items[1]? >>= Sexp.asAtom >>= Codec.ofName
+    let bs ← items[2]? >>= Sexp.asHex
+    match c.mergeAll (bs.length + 1) [] bs with
+    | .ok acc => pure s!"ok {svs acc}"
+    | o => pure o.cls
+  | "pblend" =>
+    let bs ← items[1]? >>= Sexp.asHex
+    match decodeVarint bs with
+    | .ok (v, _) => pure s!"ok {v}"
+    | o => pure o.cls
+  | "pbenc" | "pbcat" =>
+    let bt := (← items[1]? >>= Sexp.asAtom) == "bt"
+    let flag ← items[2]? >>= Sexp.asAtom >>= flagOf
+    let s ← items[3]? >>= schemaOf
+    let i ← items[4]? >>= Sexp.asNat
+    let m ← items[5]? >>= slotsOf s (decls s i)
+    let m := if bt then sortSlots m else m
+    let b := encode s flag i m
+    if verb == "pbenc" then
+      let shown := if !bt && (Slots.toList m).any multiSlot then "~" else hexOrDash b
+      pure s!"ok {shown} len={encodedLen s flag i m}"
+    else
+      let m2 ← items[6]? >>= slotsOf s (decls s i)
+      let m2 := if bt then sortSlots m2 else m2
+      match decode s i (b ++ encode s flag i m2) with
+      | .ok r => pure s!"ok {slotsSexp r}"
+      | o => pure o.cls
+  | "pbdec" =>
+    let s ← items[2]? >>= schemaOf
+    let i ← items[3]? >>= Sexp.asNat
+    let bs ← items[4]? >>= Sexp.asHex
+    match decode s i bs with
+    | .ok r => pure s!"ok {slotsSexp r}"
+    | o => pure o.cls
+  | "pbspecchk" =>
+    let ps ← items[2]? >>= pschemaOf
+    let s := Spec.lowerSchema ps
+    let i ← items[3]? >>= Sexp.asNat
+    let m ← items[4]? >>= slotsOf s (decls s i)
+    let bs ← items[5]? >>= Sexp.asHex
+    let verdict := if Spec.check ps i m bs then "1" else "0"
+    match decode s i bs with
+    | .ok r => pure s!"ok {verdict} {slotsSexp r}"
+    | o => pure s!"ok {verdict} {o.cls}"
+  | "pbspecdec" =>
+    let ps ← items[1]? >>= pschemaOf
+    let i ← items[2]? >>= Sexp.asNat
+    let bs ← items[3]? >>= Sexp.asHex
+    match Spec.decode ps i bs with
+    | some r => pure s!"ok {slotsSexp r}"
+    | none => pure "err"
+  | "pbgrpenc" =>
+    let bt := (← items[1]? >>= Sexp.asAtom) == "bt"
+    let flag ← items[2]? >>= Sexp.asAtom >>= flagOf
+    let s ← items[3]? >>= schemaOf
+    let i ← items[4]? >>= Sexp.asNat
+    let tag ← items[5]? >>= Sexp.asNat
+    let m ← items[6]? >>= slotsOf s (decls s i)
+    let m := if bt then sortSlots m else m
+    let b := groupEncode s flag tag i m
+    let shown := if !bt && (Slots.toList m).any multiSlot then "~" else hexOrDash b
+    pure s!"ok {shown} len={groupEncodedLen s flag tag i m}"
+  | "pbgrpdec" =>
+    let s ← items[2]? >>= schemaOf
+    let i ← items[3]? >>= Sexp.asNat
+    let tag ← items[4]? >>= Sexp.asNat
+    let bs ← items[5]? >>= Sexp.asHex
+    match groupMerge s recursionLimit tag .sgroup i (defaultMsg s i) bs with
+    | .ok (r, rest) => pure s!"ok {slotsSexp r} rem={rest.length}"
+    | o => pure o.cls
+  | "pbunk" | "pbilv" =>
+    let s ← items[2]? >>= schemaOf
+    let i ← items[3]? >>= Sexp.asNat
+    let bs ← items[4]? >>= Sexp.asHex
+    match decode s i bs with
+    | .ok r => pure s!"ok {slotsSexp r}"
+    | o => pure o.cls
+  | "pbdld" =>
+    let s ← items[2]? >>= schemaOf
+    let i ← items[3]? >>= Sexp.asNat
+    let bs ← items[4]? >>= Sexp.asHex
+    match decodeLengthDelimited s i bs with
+    | .ok (r, rest) => pure s!"ok {slotsSexp r} rem={rest.length}"
+    | o => pure o.cls
+  | "pbmrg" =>
+    let s ← items[2]? >>= schemaOf
+    let i ← items[3]? >>= Sexp.asNat
+    let m ← items[4]? >>= slotsOf s (decls s i)
+    let bs ← items[5]? >>= Sexp.asHex
+    match decodeInto s i m bs with
+    | .ok r => pure s!"ok {slotsSexp r}"
+    | o => pure o.cls
+  | "pbwrapenc" =>
+    let c ← items[1]? >>= Sexp.asAtom >>= wrapCodec
+    let v ← items[2]? >>= svOf
+    -- `if *self != default { <module>::encode(1, self, buf) }` (IEEE `!=` on floats)
+    let b := if v.isDefault then [] else c.encode 1 v
+    let l := if v.isDefault then 0 else c.encodedLen 1 v
+    pure s!"ok {hexOrDash b} len={l}"
+  | "pbwrapdec" =>
+    let c ← items[1]? >>= Sexp.asAtom >>= wrapCodec
+    let bs ← items[2]? >>= Sexp.asHex
+    match decode (wrapSchema c) 0 bs with
+    | .ok r => do let v ← wrapVal r; pure s!"ok {svSexp v}"
+    | o => pure o.cls
+  | "pbwrapld" =>
+    let c ← items[1]? >>= Sexp.asAtom >>= wrapCodec
+    let bs ← items[2]? >>= Sexp.asHex
+    match decodeLengthDelimited (wrapSchema c) 0 bs with
+    | .ok (r, rest) => do let v ← wrapVal r; pure s!"ok {svSexp v} rem={rest.length}"
+    | o => pure o.cls
+  | "pbunit" =>
+    let bs ← items[1]? >>= Sexp.asHex
+    match decode [[]] 0 bs with
+    | .ok _ => pure "ok"
+    | o => pure o.cls
+  | _ => none
 
 end Driver.Pb
